@@ -71,6 +71,16 @@ def _Mock():
     return Mock()
 
 
+def _peek_more(mm, addr):
+    """The other queries a user can make of a half-built map (flattened listing, address lookups at the window just
+    placed and at both ends of the space); none may change what the finished decoder says or does."""
+    try:
+        list(mm.all_resources())
+    except Exception:
+        pass
+    mm.decode_address(addr); mm.decode_address(0); mm.decode_address((1 << mm.addr_width) - 1)
+
+
 def build(cfg):
     """Replays the add() sequence on a real wishbone.Decoder.  Returns the decoder, the interfaces that
     were added and, per attempt, ("ok", [start, stop, ratio], map_aw) | ("rejected",) | ("unplaced",)."""
@@ -110,6 +120,7 @@ def build(cfg):
         if len(b.subs) % 2 == 1:
             # looking at a half-built decoder must not change what it becomes
             list(dec.bus.memory_map.windows()); list(dec.bus.memory_map.window_patterns())
+            _peek_more(dec.bus.memory_map, int(r[0]))
     return b
 
 
